@@ -60,6 +60,8 @@ class JSExec(GoExec, SpecMixin, CallsMixin):
                 ps = c.key.split()
                 self.jscontracts.setdefault(ps[1] if len(ps) >= 2 else ps[0], c)
         self.throws = []
+        self.u32view = {}
+        self.dmcache = {}
 
     # ------------------------------------------------------------------ number algebra
     def num(self, n):
@@ -82,7 +84,7 @@ class JSExec(GoExec, SpecMixin, CallsMixin):
         r = self.range_of(v)
         if r and -TWO31 <= r[0] and r[1] < TWO31:
             return v
-        return (v + TWO31) % TWO32 - TWO31
+        return self.dm(v + TWO31, TWO32)[1] - TWO31
 
     def touint32(self, v):
         if isinstance(v, MaybeNaN):
@@ -92,7 +94,35 @@ class JSExec(GoExec, SpecMixin, CallsMixin):
         r = self.range_of(v)
         if r and 0 <= r[0] and r[1] < TWO32:
             return v
-        return v % TWO32
+        return self.dm(v, TWO32)[1]
+
+    def dm(self, x, c):
+        """floor division and modulus by a positive constant, purified: fresh q, r with x == c*q + r, 0 <= r < c (keeps the
+        verification conditions in linear arithmetic without nested div/mod terms)"""
+        xs = z3.simplify(x)
+        if z3.is_int_value(xs):
+            return z3.IntVal(xs.as_long() // c), z3.IntVal(xs.as_long() % c)
+        key = (xs.get_id(), c)
+        st = self._st
+        cache = st.meta.get('dm', {})
+        if key in cache:
+            return cache[key][0], cache[key][1]
+        q, r = fresh('q'), fresh('r')
+        st.pc.append(z3.And(xs == c * q + r, r >= 0, r < c))
+        self.know(r, 0, c - 1)
+        rg = self.range_of(xs)
+        if rg:
+            self.know(q, rg[0] // c, rg[1] // c)
+            st.pc.append(z3.And(q >= rg[0] // c, q <= rg[1] // c))
+        nc = dict(cache); nc[key] = (q, r, xs)      # xs kept alive so that its id is not reused
+        st.meta['dm'] = nc
+        return q, r
+
+    def u32(self, v):
+        """ToUint32 of an Int term; int32 results of << and | remember the unsigned value they were wrapped from"""
+        if isinstance(v, z3.ExprRef) and v.get_id() in self.u32view:
+            return self.u32view[v.get_id()]
+        return self.touint32(v)
 
     def tz(self, v):
         """guaranteed number of trailing zero bits of a non-negative Int term (syntactic)"""
@@ -107,10 +137,15 @@ class JSExec(GoExec, SpecMixin, CallsMixin):
             return sum(self.tz(c) for c in v.children() if z3.is_int_value(z3.simplify(c)))
         if z3.is_add(v):
             return min(self.tz(c) for c in v.children())
+        if z3.is_app(v) and v.decl().kind() == z3.Z3_OP_MOD:
+            m = z3.simplify(v.arg(1))
+            if z3.is_int_value(m) and m.as_long() > 0 and (m.as_long() & (m.as_long() - 1)) == 0:
+                return min(self.tz(v.arg(0)), m.as_long().bit_length() - 1)
         return 0
 
     # ------------------------------------------------------------------ expressions
     def ev(self, st, e):
+        self._st = st
         m = getattr(self, 'js_' + e['type'], None)
         if m is None:
             raise Unsupported('JS expression %s @%s' % (e['type'], e['loc']['start']['line']))
@@ -241,14 +276,14 @@ class JSExec(GoExec, SpecMixin, CallsMixin):
             return a * b
         return self.abstract_product(st, a, b, line)
 
-    _prod = z3.Function('prod', I, I, I)
     def abstract_product(self, st, a, b, line):
         """product of two non-constant terms: an uninterpreted symbol plus the bound facts that follow from operand ranges that
         are syntactically known (x % 2^k, x / 2^k of a bounded x); algebraic identities enter as lemmas."""
-        p = self._prod(a, b)
+        p = PROD(a, b)
         ra, rb = self.range_of(a), self.range_of(b)
         if ra and rb and ra[0] >= 0 and rb[0] >= 0:
             st.assume(z3.And(p >= ra[0] * rb[0], p <= ra[1] * rb[1]))
+            self.know(p, ra[0] * rb[0], ra[1] * rb[1])
         self.nonlinear = getattr(self, 'nonlinear', 0) + 1
         return p
 
@@ -320,27 +355,36 @@ class JSExec(GoExec, SpecMixin, CallsMixin):
             if not z3.is_int_value(bc):
                 raise Unsupported('variable shift count in mode jn @%s (use mode bv)' % line)
             k = bc.as_long() & 31
-            if op == '>>>': return self.touint32(a) / (1 << k) if k else self.touint32(a)
-            if op == '>>': return self.toint32(a) / (1 << k) if k else self.toint32(a)
-            return self.toint32(self.touint32(a) * (1 << k))
+            if op == '>>>':
+                ua = self.u32(a)
+                return self.dm(ua, 1 << k)[0] if k else ua
+            if op == '>>': return self.dm(self.toint32(a), 1 << k)[0] if k else self.toint32(a)
+            u = self.touint32(self.u32(a) * (1 << k))
+            r = self.toint32(u)
+            self.u32view[r.get_id()] = u          # remember the unsigned reading of this int32 result
+            return r
         if op == '&':
             for x, y in ((a, b), (b, a)):
                 yc = z3.simplify(y)
                 if z3.is_int_value(yc):
                     m = yc.as_long()
                     if m >= 0 and (m & (m + 1)) == 0:
-                        return self.touint32(x) % (m + 1)
+                        return self.dm(self.u32(x), m + 1)[1]
             raise Unsupported('& with a non-mask operand in mode jn @%s' % line)
         if op == '|':
             if z3.is_int_value(bc) and bc.as_long() == 0:
                 return self.toint32(a)
             for x, y in ((a, b), (b, a)):
-                k = self.tz(x)
+                ux, uy = self.u32(x), self.u32(y)
+                k = self.tz(ux)
                 if k >= 1:
-                    k = min(k, 31)
-                    # disjoint-or: x has k trailing zero bits, y fits below them
-                    self.oblige(st, 'disjoint-or@%s' % line, z3.And(y >= 0, y < (1 << k), x >= 0, x < TWO32), src=line)
-                    return self.toint32(x + y)
+                    k = min(k, 32)
+                    # disjoint-or on the unsigned readings: ux has k trailing zero bits, uy fits below them
+                    self.oblige(st, 'disjoint-or@%s' % line, z3.And(uy >= 0, uy < (1 << k)), src=line)
+                    u = ux + uy
+                    r = self.toint32(u)
+                    self.u32view[r.get_id()] = u
+                    return r
             raise Unsupported('| of overlapping operands in mode jn @%s (use mode bv)' % line)
         raise Unsupported('operator %s in mode jn @%s' % (op, line))
 
@@ -457,7 +501,8 @@ class JSExec(GoExec, SpecMixin, CallsMixin):
                 hv = z3.SignExt(32, z3.Extract(31, 0, h)) if kind == 'Int64' else z3.ZeroExt(32, z3.Extract(31, 0, h))
                 lv = z3.ZeroExt(32, z3.Extract(31, 0, low))
             else:
-                h = high + low / TWO32        # floor division: low is an integer here (obligation below)
+                self._st = st
+                h = high + self.dm(low, TWO32)[0]        # floor(ceil(low) / 2^32): low is an integer here
                 hv = self.toint32(h) if kind == 'Int64' else self.touint32(h)
                 lv = self.touint32(low)
             self.assumed.add('64-bit constructor contract (types.js $kindInt64/$kindUint64 regions, verified separately under C06)')
@@ -731,16 +776,17 @@ class JSExec(GoExec, SpecMixin, CallsMixin):
             b[k] = self.to_spec(st, v)
         return b
 
-    def to_spec(self, st, v):
+    def to_spec(self, st, v, depth=0):
+        if depth > 4: return None
         if isinstance(v, MaybeNaN): return v.val
         if isinstance(v, JSArr):
             s = SliceV([z3.Select(self.heap(st), v.ident)], z3.IntVal(0), v.length, v.length, None, z3.BoolVal(False))
             s.ident = v.ident
             return s
         if isinstance(v, JSObj):
-            return StructV(None, {k: self.to_spec(st, x) for k, x in v.fields.items()})
+            return StructV(None, {k: self.to_spec(st, x, depth + 1) for k, x in v.fields.items() if x is not v})
         if isinstance(v, JSTuple):
-            return TupleV([self.to_spec(st, x) for x in v.items])
+            return TupleV([self.to_spec(st, x, depth + 1) for x in v.items])
         return v
 
     def spec_sel(self, env, e):
@@ -785,11 +831,52 @@ class JSExec(GoExec, SpecMixin, CallsMixin):
         raise Unsupported('JS parameter type %s' % ty)
 
     def find_func(self, name, file=None):
+        region = None
+        if ':' in name:
+            name, region = name.split(':', 1)
         for f, d in self.js.items():
             if file and f != file: continue
             if name in d['funcs']:
-                return d['funcs'][name], f
+                fn = d['funcs'][name]
+                if region:
+                    fn = self.find_region(fn, region)
+                    if fn is None:
+                        return None, None
+                return fn, f
         return None, None
+
+    def find_region(self, fn, label):
+        """the function expression assigned inside `case <label>:` of a switch in fn (cut from the ESTree at check time)"""
+        found = []
+        def fexpr(n):
+            if isinstance(n, list):
+                for x in n:
+                    r = fexpr(x)
+                    if r: return r
+            elif isinstance(n, dict):
+                if n.get('type') in ('FunctionExpression', 'ArrowFunctionExpression'):
+                    return n
+                for k, v in n.items():
+                    if k != 'loc' and isinstance(v, (dict, list)):
+                        r = fexpr(v)
+                        if r: return r
+            return None
+        def walk(n):
+            if isinstance(n, list):
+                for x in n: walk(x)
+            elif isinstance(n, dict):
+                if n.get('type') == 'SwitchCase' and n.get('test') and n['test'].get('type') == 'Identifier' and n['test']['name'] == label and n.get('consequent'):
+                    r = fexpr(n['consequent'])
+                    if r: found.append(r)
+                for k, v in n.items():
+                    if k != 'loc' and isinstance(v, (dict, list)): walk(v)
+        walk(fn['body'])
+        return found[0] if found else None
+
+    def js_ThisExpression(self, st, e):
+        if 'this' not in st.env:
+            st.env['this'] = JSObj({}, ref=fresh('this'))
+        return st.env['this']
 
     def number_js_loops(self, fn):
         loops, cnt = {}, [0]
@@ -813,6 +900,8 @@ class JSExec(GoExec, SpecMixin, CallsMixin):
             raise Unsupported('JS function %s not found (contract does not bind)' % c.key)
         reset_fresh()
         self.known_ranges = {}
+        self.u32view = {}
+        self.dmcache = {}
         fr = Frame(' '.join(parts[1:]) if len(parts) >= 2 else name, fn, c)
         fr.loops = self.number_js_loops(fn)
         self.frame = fr
